@@ -40,8 +40,25 @@ func stmt(kind string, lo, hi int64) string {
 		return "SELECT count(v) FROM m" + where
 	case "sum":
 		return "SELECT sum(v) FROM m" + where + " GROUP BY host"
+	case "star": // wildcard expansion: a field/tag metadata lookup on every needed shard
+		return "SELECT * FROM m" + where
+	case "star2":
+		return "SELECT * FROM m2" + where
+	case "both": // two measurement sources over the same shards
+		return "SELECT * FROM m, m2" + where
+	case "count2":
+		return "SELECT count(w) FROM m2" + where
 	}
 	return ""
+}
+
+// sources is the number of measurement sources of a statement kind: every needed remote shard
+// is requested once per source
+func sources(kind string) int {
+	if kind == "both" {
+		return 2
+	}
+	return 1
 }
 
 func RunOps(ops []string) []string {
@@ -57,7 +74,12 @@ func RunOps(ops []string) []string {
 	st := &runState{hasData: map[uint64]bool{}}
 	out := make([]string, len(ops))
 	nth := 0
+	slowOK := false
 	for i, op := range ops {
+		if strings.HasPrefix(op, "fault ") && strings.HasSuffix(op, " slow") && !slowOK {
+			out[i] = "bad-op" // a slow node needs the cluster made with the short RPC timeout
+			continue
+		}
 		f := strings.Fields(op)
 		if f[0] == "creset" {
 			if c != nil {
@@ -65,7 +87,12 @@ func RunOps(ops []string) []string {
 			}
 			nth++
 			var err error
-			c, err = clusterh.New(fmt.Sprintf("%s/%d", dir, nth), int(i64(f[1])), "inmem")
+			var to time.Duration
+			if len(f) > 2 && f[2] == "slow" {
+				to = clusterh.SlowTimeout
+			}
+			c, err = clusterh.NewWithTimeout(fmt.Sprintf("%s/%d", dir, nth), int(i64(f[1])), "inmem", to)
+			slowOK = to > 0
 			shards = nil
 			st = &runState{hasData: map[uint64]bool{}}
 			if err != nil {
@@ -89,6 +116,7 @@ type runState struct {
 	q       bool
 	coord   int
 	lo, hi  int64
+	sources int
 }
 
 func step(c *clusterh.Cluster, shards *[]uint64, st *runState, f []string) (res string) {
@@ -122,7 +150,12 @@ func step(c *clusterh.Cluster, shards *[]uint64, st *runState, f []string) (res 
 			if err != nil {
 				return "bad-op"
 			}
-			pts = append(pts, p)
+			// the second measurement carries the same points under another field name
+			p2, err := models.NewPoint("m2", tags, models.Fields{"w": vb + int64(i)}, time.Unix(0, t0+int64(i)*stp))
+			if err != nil {
+				return "bad-op"
+			}
+			pts = append(pts, p, p2)
 		}
 		if err := c.WriteShard((*shards)[idx], pts); err != nil {
 			return "err:" + strings.ReplaceAll(err.Error(), " ", "_")
@@ -148,6 +181,8 @@ func step(c *clusterh.Cluster, shards *[]uint64, st *runState, f []string) (res 
 			c.SetFault(i, clusterh.Fault{Kind: "err"})
 		case f[2] == "cut":
 			c.SetFault(i, clusterh.Fault{Kind: "cut"})
+		case f[2] == "slow":
+			c.SetFault(i, clusterh.Fault{Kind: "slow"})
 		case strings.HasPrefix(f[2], "mid:"):
 			c.SetFault(i, clusterh.Fault{Kind: "mid", K: int(i64(f[2][4:]))})
 		default:
@@ -160,9 +195,12 @@ func step(c *clusterh.Cluster, shards *[]uint64, st *runState, f []string) (res 
 			return "bad-op"
 		}
 		c.Served()
-		st.q, st.coord, st.lo, st.hi = true, i, i64(f[3]), i64(f[4])
+		st.q, st.coord, st.lo, st.hi, st.sources = true, i, i64(f[3]), i64(f[4]), sources(f[2])
 		rows, err := c.Query(i, stmt(f[2], i64(f[3]), i64(f[4])))
 		if err != nil {
+			if os.Getenv("VERIF_DEBUG") != "" {
+				fmt.Fprintf(os.Stderr, "C05 %v: %v\n", f, err)
+			}
 			return "error"
 		}
 		if rows == "" {
@@ -171,6 +209,8 @@ func step(c *clusterh.Cluster, shards *[]uint64, st *runState, f []string) (res 
 		return "ok " + rows
 	case "served":
 		log := c.Served()
+		wasQuery := st.q
+		st.q = false // the log belongs to the query just before
 		if c.AnyUnhealthy() {
 			return "served ?"
 		}
@@ -179,7 +219,12 @@ func step(c *clusterh.Cluster, shards *[]uint64, st *runState, f []string) (res 
 		count := map[uint64]int{}
 		for node, lists := range log {
 			for _, l := range lists {
+				inReq := map[uint64]bool{}
 				for _, id := range l {
+					if inReq[id] {
+						return fmt.Sprintf("served SHARD-%d-TWICE-IN-ONE-REQUEST", id)
+					}
+					inReq[id] = true
 					count[id]++
 					owner := false
 					for _, o := range c.Owners(id) {
@@ -193,7 +238,7 @@ func step(c *clusterh.Cluster, shards *[]uint64, st *runState, f []string) (res 
 				}
 			}
 		}
-		if !st.q {
+		if !wasQuery {
 			return "served ok"
 		}
 		for _, id := range c.Needed(st.lo, st.hi) {
@@ -208,7 +253,7 @@ func step(c *clusterh.Cluster, shards *[]uint64, st *runState, f []string) (res 
 				return fmt.Sprintf("served LOCAL-SHARD-%d-ALSO-READ-REMOTELY", id)
 			case !local && st.hasData[id] && count[id] == 0:
 				return fmt.Sprintf("served SHARD-%d-NOT-READ", id)
-			case count[id] > 1:
+			case count[id] > st.sources:
 				return fmt.Sprintf("served SHARD-%d-READ-%d-TIMES", id, count[id])
 			}
 		}
@@ -275,7 +320,7 @@ func genCase(r *fw.Rand) fw.Case {
 		if r.Intn(3) == 0 {
 			lo, hi = base, base+int64(ngroups)*groupLen
 		}
-		kind := []string{"raw", "rawdesc", "count", "sum"}[r.Intn(4)]
+		kind := []string{"raw", "rawdesc", "count", "sum", "star", "star2", "both", "count2"}[r.Intn(8)]
 		ops = append(ops, fmt.Sprintf("q %d %s %d %d", c, kind, lo, hi), "served")
 	}
 	for i := 0; i < 2+r.Intn(3); i++ {
@@ -317,6 +362,70 @@ func genCase(r *fw.Rand) fw.Case {
 	return fw.Case{Ops: ops, Tags: []string{fmt.Sprintf("nodes=%d", n)}}
 }
 
+// genSlowCase: a cluster made with a short RPC timeout (so that the case takes seconds), a
+// node S that answers later than that, a coordinator C and the rest healthy. Group 0 holds
+// shards that S shares with healthy owners (the query must fail over and still answer);
+// group 1, when present, holds a shard only S owns (a query over it must fail while S is
+// slow). After S is healthy again the lookups must not be mixed up with the answers that
+// arrived too late.
+func genSlowCase(r *fw.Rand, n int) fw.Case {
+	if n < 3 {
+		n = 3
+	}
+	perm := r.Perm(n)
+	C, S, H := perm[0], perm[1], perm[2]
+	ops := []string{fmt.Sprintf("creset %d slow", n)}
+	shared := fmt.Sprintf("%d,%d", S, H)
+	if r.Intn(2) == 0 {
+		shared = fmt.Sprintf("%d,%d", H, S)
+	}
+	specs := []string{shared}
+	if r.Intn(2) == 0 {
+		specs = append(specs, fmt.Sprint(H))
+	}
+	if r.Intn(3) == 0 {
+		specs = append(specs, fmt.Sprintf("%d,%d", C, S))
+	}
+	ops = append(ops, fmt.Sprintf("sg %d %d %s", base, base+groupLen, strings.Join(specs, "/")))
+	nshards := len(specs)
+	sole := r.Intn(3) != 0
+	if sole {
+		ops = append(ops, fmt.Sprintf("sg %d %d %d", base+groupLen, base+2*groupLen, S))
+		nshards++
+	}
+	for i := 0; i < nshards; i++ {
+		g := int64(0)
+		if sole && i == nshards-1 {
+			g = 1
+			if r.Intn(2) == 0 {
+				continue // the shard only S owns is empty
+			}
+		}
+		ops = append(ops, fmt.Sprintf("data %d %d %d %d %d", i, 1+r.Intn(8), base+g*groupLen+int64(i)+int64(r.Intn(5))*100, 1000*(1+int64(r.Intn(3))), r.Intn(1000)-300))
+	}
+	q := func(kind string, groups int64) {
+		ops = append(ops, fmt.Sprintf("q %d %s %d %d", C, kind, base, base+groups*groupLen-1), "served")
+	}
+	kinds := []string{"star", "star2", "both", "raw", "count2", "sum"}
+	all := int64(1)
+	if sole {
+		all = 2
+	}
+	q(kinds[r.Intn(3)], all)
+	ops = append(ops, fmt.Sprintf("fault %d slow", S))
+	for k := 0; k < 2+r.Intn(2); k++ {
+		q(kinds[r.Intn(len(kinds))], 1)
+	}
+	if sole {
+		q([]string{"star", "both"}[r.Intn(2)], 2)
+	}
+	ops = append(ops, fmt.Sprintf("fault %d none", S))
+	q("star2", all)
+	q("star", all)
+	q(kinds[r.Intn(3)], all)
+	return fw.Case{Ops: ops, Tags: []string{fmt.Sprintf("nodes=%d", n), "slow"}}
+}
+
 func (Prop) Generate(r *fw.Rand, tier string) []fw.Case {
 	n := 40
 	if tier == "thorough" {
@@ -324,13 +433,18 @@ func (Prop) Generate(r *fw.Rand, tier string) []fw.Case {
 	}
 	var cases []fw.Case
 	for i := 0; i < n; i++ {
+		if i%8 == 3 { // one case in eight has a node that answers more slowly than the RPC timeout
+			f := r.Fork()
+			cases = append(cases, genSlowCase(f, 3+f.Intn(3)))
+			continue
+		}
 		cases = append(cases, genCase(r.Fork()))
 	}
 	return cases
 }
 
 func (Prop) Describe(cfg *fw.Config) {
-	cfg.Rule = "seeded in-process clusters of 2-5 real data nodes sharing one metadata value: 1-4 shard groups of 1-3 shards with 1-3 owners each in arbitrary placement, integer points written to every owner of a shard (some shards empty), queries (raw ascending/descending, count, sum grouped by tag; whole range or a sub-range selecting some groups) issued on every node; then nodes are taken down, made to refuse iterator creation, or (sole owners only) made to fail part-way through the point stream, and the queries repeated from live nodes; compared with the model: the statement over the union of the needed shards each counted once when every needed shard has a local or healthy owner, an error otherwise; with all nodes healthy the per-node serving log must show every non-local needed shard exactly once; non-trivial = at least one query ran with a fault or a down node; distinct = distinct op list"
+	cfg.Rule = "seeded in-process clusters of 2-5 real data nodes sharing one metadata value: 1-4 shard groups of 1-3 shards with 1-3 owners each in arbitrary placement, integer points written under two measurements (m field v, m2 field w) to every owner of a shard (some shards empty), statements (raw ascending/descending, count, sum grouped by tag, SELECT * on either measurement = field/tag lookup on every needed shard, SELECT * FROM m, m2 = two sources over the same shards; whole range or a sub-range selecting some groups) issued on every node; then nodes are taken down, made to refuse iterator creation, or (sole owners only) made to fail part-way through the point stream, and the statements repeated from live nodes; one case in eight runs on a cluster with a 1.2 s RPC timeout where one owner answers after 2 s (fail-over from it must still answer, a shard only it owns must fail the query, and after it is healthy again the lookups must not be mixed up with the late answers); compared with the model: the statement over the union of the needed shards each counted once when every needed shard has a local or healthy owner, an error otherwise; with all nodes healthy the per-node serving log must show every non-local needed shard once per source, never twice in one request, never from a non-owner; non-trivial = at least one query ran with a fault or a down node; distinct = distinct op list"
 }
 
 func (Prop) Trivial(c fw.Case, out []string) bool {
@@ -372,7 +486,7 @@ func (r *ref) servable(c int, sh *rshard) (bool, string) {
 			return true, ""
 		}
 	}
-	why := "every owner down or refusing"
+	why := "every owner down, refusing or slower than the RPC timeout"
 	for _, o := range sh.owners {
 		switch r.status[o] {
 		case "mid":
@@ -406,7 +520,7 @@ func (r *ref) query(c int, kind string, lo, hi int64) (string, string) {
 		// that answers at all
 		metaOK := false
 		for _, o := range sh.owners {
-			if o == c || r.status[o] != "down" {
+			if o == c || (r.status[o] != "down" && r.status[o] != "slow") {
 				metaOK = true
 			}
 		}
@@ -447,6 +561,27 @@ func (r *ref) query(c int, kind string, lo, hi int64) (string, string) {
 		return sb.String(), ""
 	case "count":
 		return fmt.Sprintf("ok [m{}(time,count) %d,%d]", lo, len(pts)), ""
+	case "count2":
+		return fmt.Sprintf("ok [m2{}(time,count) %d,%d]", lo, len(pts)), ""
+	case "star", "star2", "both":
+		sort.Slice(pts, func(i, j int) bool { return pts[i].t < pts[j].t })
+		series := func(name, cols string, cell func(p rpt) string) string {
+			var sb strings.Builder
+			sb.WriteString("[" + name + "{}(" + cols + ")")
+			for _, p := range pts {
+				sb.WriteString(" " + cell(p))
+			}
+			sb.WriteString("]")
+			return sb.String()
+		}
+		switch kind {
+		case "star":
+			return "ok " + series("m", "time,host,v", func(p rpt) string { return fmt.Sprintf("%d,h%d,%d", p.t, p.host, p.v) }), ""
+		case "star2":
+			return "ok " + series("m2", "time,host,w", func(p rpt) string { return fmt.Sprintf("%d,h%d,%d", p.t, p.host, p.v) }), ""
+		}
+		return "ok " + series("m", "time,host,v,w", func(p rpt) string { return fmt.Sprintf("%d,h%d,%d,null", p.t, p.host, p.v) }) +
+			series("m2", "time,host,v,w", func(p rpt) string { return fmt.Sprintf("%d,h%d,null,%d", p.t, p.host, p.v) }), ""
 	case "sum":
 		sums := map[int]int64{}
 		for _, p := range pts {
@@ -472,6 +607,7 @@ func (r *ref) query(c int, kind string, lo, hi int64) (string, string) {
 // anything else.
 func (Prop) Oracle(c fw.Case, out []string) fw.Verdict {
 	r := &ref{}
+	slowOK := false
 	for i, op := range c.Ops {
 		if i >= len(out) {
 			break
@@ -483,6 +619,7 @@ func (Prop) Oracle(c fw.Case, out []string) fw.Verdict {
 		}
 		switch f[0] {
 		case "creset":
+			slowOK = len(f) > 2 && f[2] == "slow"
 			r = &ref{n: int(i64(f[1]))}
 			for k := 0; k < r.n; k++ {
 				r.status = append(r.status, "up")
@@ -520,6 +657,10 @@ func (Prop) Oracle(c fw.Case, out []string) fw.Verdict {
 				r.status[k] = "err"
 			case f[2] == "cut":
 				r.status[k] = "cut"
+			case f[2] == "slow":
+				if slowOK {
+					r.status[k] = "slow"
+				}
 			case strings.HasPrefix(f[2], "mid:"):
 				r.status[k] = "mid"
 			}
